@@ -49,7 +49,10 @@ def cli_diff(ctx, cases, project=None, tag="", inproc=False, keyf=None):
             if a != b: d = "output differs from the model: model %r / implementation %r" % (first_diff(a, b))
         if d:
             key = (keyf(c) if keyf else "corr:%s%s" % (tag, c["cmd"]))
-            ctx.violation(key, d, dict(kind="cli", case=c, model=dict(status=mst, stdout=mout), impl=i, projection=project.__name__ if project else "exact"))
+            # a disagreement with the model is not by itself a failing input of the property: the property-level relations of the check decide that
+            crash = i["status"].startswith("crash") or i["status"] == "timeout"
+            ctx.violation(key, d, dict(kind="cli", case=c, model=dict(status=mst, stdout=mout), impl=i, projection=project.__name__ if project else "exact",
+                                       correspondence="S-CLI (extracted Coq model vs implementation)"), found_input=crash)
     return ires
 
 def first_diff(a, b):
@@ -78,6 +81,30 @@ def parse_resolved(text):
         k, _, els = line.partition(" ")
         d[bytes.fromhex(k)] = [(bytes.fromhex(e.split(":")[0]), e.split(":")[1]) for e in els.split(",") if e]
     return ("ok", d)
+
+def longest_chain(items):
+    """number of references on the longest chain of ingredient references starting at a recipe (the last reference, to a name the book does not define,
+    counts); None when the recipes are cyclic. The later of two equal headings replaces the earlier one."""
+    book = {}; cur = None
+    for it in items:
+        if it[0] == "heading": cur = it[1]; book[cur] = []
+        elif it[0] == "entry" and cur is not None: book[cur].append(it[1])
+    memo = {}; onstack = set()
+    def go(rn):
+        if rn in memo: return memo[rn]
+        if rn in onstack: raise RecursionError
+        onstack.add(rn)
+        best = 0
+        for x in book[rn]:
+            best = max(best, 1 + (go(x) if x in book else 0))
+        onstack.discard(rn); memo[rn] = best
+        return best
+    try:
+        import sys
+        sys.setrecursionlimit(max(sys.getrecursionlimit(), 10000))
+        return max([go(rn) for rn in book] or [0])
+    except RecursionError:
+        return None
 
 def expected_resolution(items):
     """the property's right-hand side, computed from the abstract book with exact rationals: for every recipe the sum over all
@@ -131,7 +158,16 @@ def resolve_stream(ctx, books, depths, repeat, tagkey):
         if pi[0] == "NONDET":
             ctx.violation(tagkey + ":nondeterministic", "resolution outcome differs between runs / entry points (map visiting order)", rep); continue
         if i != m:
-            ctx.violation(tagkey + ":differs-from-model", "resolve differs from the model: %r vs %r" % first_diff(m, i), rep); continue
+            ctx.violation(tagkey + ":differs-from-model", "resolve differs from the model: %r vs %r" % first_diff(m, i), dict(rep, correspondence="S-RESOLVE (extracted Coq model vs resolver.Resolve)"), found_input=False)
+        # the property's own clauses, evaluated on the implementation's result (whether or not it agrees with the model)
+        if ctx.pid == "C11" and meta.get("items") and pi[0] in ("ok", "err"):
+            longest = longest_chain(meta["items"])
+            must_fail = longest is None or longest >= d
+            ctx.tally("chain_oracle", "must fail" if must_fail else "must succeed")
+            if must_fail and pi[0] == "ok":
+                ctx.violation("C11:accepted-chain-at-or-over-limit", "resolution succeeds with limit %d although %s" % (d, "the recipes are cyclic" if longest is None else "a chain of %d references exists" % longest), rep)
+            if not must_fail and pi[0] == "err":
+                ctx.violation("C11:rejected-legitimate-nesting", "resolution fails (%s) with limit %d although the longest chain has %d references" % (pi[1], d, longest), rep)
         if pi[0] == "ok" and ctx.pid == "C01":
             book_names = set(pi[1].keys())
             for rname, els in pi[1].items():
@@ -205,15 +241,16 @@ def check_C11(ctx):
     for N in range(1, 13):
         for L in range(max(0, N - 2), N + 3):
             for _ in range(ctx.scale(2, 12)):
-                b = gen.render_items(r, gen.chain_book(r, L)); books.append((b, {})); depths.append(N); ctx.nontriv(b + bytes([N]))
+                its = gen.chain_book(r, L); b = gen.render_items(r, its); books.append((b, {"items": its})); depths.append(N); ctx.nontriv(b + bytes([N]))
     for N in list(range(1, 13)) + [13, 15, 20, 30]:
         for cyc in range(1, 5):                       # cycles of length 1..4, alone or reached through a chain of 0, 1, N-1, N references
             for lead in sorted({0, 1, max(0, N - 1), N}):
                 for extra in (False, True):
-                    b = gen.render_items(r, gen.cycle_book(r, lead, cyc, extra)); books.append((b, {})); depths.append(N); ctx.nontriv(b + bytes([N]))
+                    its = gen.cycle_book(r, lead, cyc, extra); b = gen.render_items(r, its); books.append((b, {"items": its})); depths.append(N); ctx.nontriv(b + bytes([N]))
     ctx.sample(dict(book=books[40][0], depth=depths[40])); ctx.sample(dict(book=books[-1][0], depth=depths[-1]))
     for k in range(ctx.scale(1500, 30000)):
         items, meta = gen.book(r, depth=r.randint(1, 6), fancy=0.05, envelope=True, cycles=r.choice([0, 0, 0.1, 0.3]))
+        meta["items"] = items
         b = gen.render_items(r, items); books.append((b, meta)); depths.append(r.randint(1, 12))
         if meta["recipes"]: ctx.nontriv(b + bytes([depths[-1]]))
     resolve_stream(ctx, books, depths, ctx.scale(16, 64), "C11")
@@ -255,7 +292,7 @@ def parse_stream_diff(ctx, datas, key, faults=None, chunks=None):
             ctx.count(); ctx.traces += 1
             if m != i:
                 ctx.violation(key, "callback sequence differs from the model: %r vs %r" % first_diff(m, i),
-                              dict(kind="parse", data=d, fault=f, chunk=ch, model=m, impl=i))
+                              dict(kind="parse", data=d, fault=f, chunk=ch, model=m, impl=i, correspondence="S-PARSE (extracted Coq model vs parser.ParseStreamCallback)"), found_input=False)
     return mres
 
 def syntax_files(ctx, n, bad=0.0, fancy=0.35):
